@@ -1,4 +1,5 @@
 import CMacVerif.Lemmas.HLLC
+import CMacVerif.Lemmas.ExactFlux
 /-!
 # C05 — Riemann fluxes respect the symmetries of the Euler equations
 
@@ -482,6 +483,129 @@ theorem hllc_mirror_fails_for_fast_symmetric_collision :
   rw [h1, h2] at this
   norm_num at this
 
+/-! ## The exact solver (complete `ExactRiemannSolver::solve_for_flux`, iterative path included)
+
+`ExactFlux.solve1D` is `ExactRiemannSolver::solve` (C11's model: vacuum exits, Newton/Brent root
+finding with fuel `nf`/`bf`, shock/rarefaction samplers); `ExactFlux.solveForFlux` wraps it with
+the frame change and the flux assembly.  Everything below holds for every fuel, i.e. for whatever
+pressure the root finder returns: the symmetries do not depend on its convergence. -/
+
+/-- **exact_galilean.**  `ExactRiemannSolver::solve`, every regime, every sampling speed:
+boosting both gases and `x/t` by `w` leaves flag, density and pressure unchanged and shifts the
+sampled velocity by `w` (the vacuum state keeps its conventional velocity 0).  No hypotheses. -/
+theorem exact_galilean (g : ℝ) (nf bf : ℕ) (rhoL uL PL rhoR uR PR dxdt w : ℝ) :
+    ExactFlux.solve1D 0 g nf bf rhoL (uL + w) PL rhoR (uR + w) PR (dxdt + w)
+      = (ExactFlux.solve1D 0 g nf bf rhoL uL PL rhoR uR PR dxdt).boost w :=
+  ExactFlux.solve1D_galilean ..
+
+/-- **exact_flux_galilean.**  `ExactRiemannSolver::solve_for_flux`: a common boost of both states
+and the face transforms the flux by the boost formulas (`Flux.boost`).  No hypotheses. -/
+theorem exact_flux_galilean (g : ℝ) (nf bf : ℕ) (rhoL PL rhoR PR : ℝ) (uL uR n vf w : V3 ℝ) :
+    ExactFlux.solveForFlux 0 g nf bf rhoL (uL.add w) PL rhoR (uR.add w) PR n (vf.add w)
+      = (ExactFlux.solveForFlux 0 g nf bf rhoL uL PL rhoR uR PR n vf).boost w :=
+  ExactFlux.solveForFlux_boost ..
+
+/-- **exact_mirror.**  `ExactRiemannSolver::solve`, every regime: exchanging the states, reversing
+both velocities and the sampling speed gives the mirror image (same `ρ`, `P`, reversed velocity,
+negated flag) — at every sampling speed that does not sit exactly on the contact, on the tail of
+a fan next to the star region, or on both fronts of a generated vacuum (`MirrorTieFree`; at the
+contact the solution is two-valued, so the statement cannot hold there). -/
+theorem exact_mirror (g : ℝ) (nf bf : ℕ) (rhoL uL PL rhoR uR PR dxdt : ℝ)
+    (ht : ExactFlux.MirrorTieFree g nf bf rhoL uL PL rhoR uR PR dxdt) :
+    (ExactFlux.solve1D 0 g nf bf rhoR (-uR) PR rhoL (-uL) PL (-dxdt)).MirrorOf
+      (ExactFlux.solve1D 0 g nf bf rhoL uL PL rhoR uR PR dxdt) :=
+  ExactFlux.solve1D_mirror g nf bf rhoL uL PL rhoR uR PR dxdt ht
+
+/-- **exact_flux_mirror** (`_partial`: off the ties).  `ExactRiemannSolver::solve_for_flux`:
+exchanging the states and reversing the normal negates all five flux components, when `x/t = 0`
+is tie-free in the frame of the face.  Missing: the ties, in particular `u* = 0` (exactly
+mirror-symmetric states), where the flux is still antisymmetric provided the star region is
+sampled on both sides — which depends on how far the root finder has converged (C11). -/
+theorem exact_flux_mirror_partial (g : ℝ) (nf bf : ℕ) (rhoL PL rhoR PR : ℝ) (uL uR n vf : V3 ℝ)
+    (ht : ExactFlux.MirrorTieFree g nf bf rhoL (faceFrame uL uR n vf).vL PL rhoR
+      (faceFrame uL uR n vf).vR PR 0) :
+    (ExactFlux.solveForFlux 0 g nf bf rhoR uR PR rhoL uL PL n.neg vf).NegOf
+      (ExactFlux.solveForFlux 0 g nf bf rhoL uL PL rhoR uR PR n vf) :=
+  ExactFlux.solveForFlux_mirror g nf bf rhoL PL rhoR PR uL uR n vf ht
+
+/-- **exact_identical.**  Two identical non-vacuum states: `solve` returns that state at every
+sampling speed (the initial guess `P` is already a root, so no iteration happens), and
+`solve_for_flux` returns the analytic Euler flux — for every fuel. -/
+theorem exact_identical (g : ℝ) (nf bf : ℕ) (rho P : ℝ) (u n vf : V3 ℝ) (hr : 0 < rho) (hP : 0 < P) :
+    (∀ v d : ℝ, (ExactFlux.solve1D 0 g nf bf rho v P rho v P d).rho = rho ∧
+      (ExactFlux.solve1D 0 g nf bf rho v P rho v P d).u = v ∧
+      (ExactFlux.solve1D 0 g nf bf rho v P rho v P d).P = P) ∧
+    (ExactFlux.solveForFlux 0 g nf bf rho u P rho u P n vf).Same (eulerFlux g rho u P n vf) := by
+  refine ⟨fun v d => ?_, ?_⟩
+  · obtain ⟨a, b, c, _⟩ := ExactFlux.solve1D_identical g nf bf (rho := rho) (P := P) v d hr hP
+    exact ⟨a, b, c⟩
+  · have hG := effGamma_gt_one g
+    have hf : faceFrame u u n vf = ⟨u.sub vf, u.sub vf, (u.sub vf).dot n, (u.sub vf).dot n⟩ := rfl
+    obtain ⟨a, b, c, d⟩ := ExactFlux.solve1D_identical g nf bf (rho := rho) (P := P)
+      ((u.sub vf).dot n) 0 hr hP
+    unfold ExactFlux.solveForFlux ExactFlux.fluxWith eulerFlux
+    simp only [hf, lit0]
+    generalize ExactFlux.solve1D 0 g nf bf rho ((u.sub vf).dot n) P rho ((u.sub vf).dot n) P 0 = s at *
+    have hz : ∀ p : V3 ℝ, p.add (n.smul ((u.sub vf).dot n - (u.sub vf).dot n)) = p := by
+      intro p; ext <;> simp [V3.add, V3.smul]
+    unfold fluxFromSample
+    rcases d with d | d
+    · simp only [d, a, b, c, hz]
+      simp only [show ((1 : Int) ≠ 0) = True by decide, show ((1 : Int) = -1) = False by decide,
+        if_true, if_false, lit1, if_pos hG, deboost_eq_boost]
+      unfold Flux.Same Flux.boost gm1inv
+      simp only [lit1, lit05]
+      refine ⟨trivial, trivial, ?_⟩
+      have : effGamma g - 1 ≠ 0 := by intro h; linarith
+      field_simp
+    · simp only [d, a, b, c, hz]
+      simp only [show ((-1 : Int) ≠ 0) = True by decide, if_true, lit1, if_pos hG, deboost_eq_boost]
+      unfold Flux.Same Flux.boost gm1inv
+      simp only [lit1, lit05]
+      refine ⟨trivial, trivial, ?_⟩
+      have : effGamma g - 1 ≠ 0 := by intro h; linarith
+      field_simp
+
+/-- **vacuum_same_as_exact, complete model.**  In every vacuum regime the HLLC flux equals the
+flux of the complete exact solver (`vacuum_same_as_exact` composed with `solveForFlux_vacuum`). -/
+theorem vacuum_same_as_exact_full (g : ℝ) (nf bf : ℕ) (rhoL PL rhoR PR : ℝ) (uL uR n vf : V3 ℝ)
+    (h : (solveForFluxIfVacuum 0 g rhoL uL PL rhoR uR PR n vf).isSome = true) :
+    (hllc g rhoL uL PL rhoR uR PR n vf).Same
+      (ExactFlux.solveForFlux 0 g nf bf rhoL uL PL rhoR uR PR n vf) := by
+  obtain ⟨F, hF⟩ := Option.isSome_iff_exists.mp h
+  obtain ⟨a1, a2, a3⟩ := vacuum_same_as_exact g rhoL PL rhoR PR uL uR n vf F hF
+  obtain ⟨b1, b2, b3⟩ := ExactFlux.solveForFlux_vacuum g nf bf rhoL PL rhoR PR uL uR n vf F hF
+  exact ⟨a1.trans b1.symm, a2.trans b2.symm, a3.trans b3.symm⟩
+
+/-- **exact_mirror_no_exchange** (`_partial`: hypothesis `hstar`).  Mirror-image states through
+the exact solver, any closing or receding speed, any fuel: the star velocity is *exactly* zero
+(`star_mirror_states`: the root finder's result cancels out), so whenever the state sampled on the
+face is the star state (`hstar`; not vacuum), no mass crosses and the energy flux is the work on
+the moving face.  Missing: `hstar` itself — that the outer waves computed from the returned `P*`
+leave the face on their own sides — which needs the accuracy of the root finder (C11); the check
+measures it on every run (evidence `exact_mirror_star_region`). -/
+theorem exact_mirror_no_exchange_partial (g : ℝ) (nf bf : ℕ) (rho P : ℝ) (uL n vf : V3 ℝ)
+    (hn : n.norm2 = 1)
+    (hstar : (ExactFlux.solve1D 0 g nf bf rho ((uL.sub vf).dot n) P rho (-((uL.sub vf).dot n)) P 0).flag ≠ 0 ∧
+      (ExactFlux.solve1D 0 g nf bf rho ((uL.sub vf).dot n) P rho (-((uL.sub vf).dot n)) P 0).u
+        = (CMacVerif.ExactRiemann.star (CMacVerif.ExactRiemann.mkConsts g) nf bf rho
+            ((uL.sub vf).dot n) P rho (-((uL.sub vf).dot n)) P).ustar) :
+    (ExactFlux.solveForFlux 0 g nf bf rho uL P rho (mirrorVelocity uL n vf) P n vf).m = 0 ∧
+    (ExactFlux.solveForFlux 0 g nf bf rho uL P rho (mirrorVelocity uL n vf) P n vf).e
+      = vf.dot (ExactFlux.solveForFlux 0 g nf bf rho uL P rho (mirrorVelocity uL n vf) P n vf).p := by
+  have hvR : ((mirrorVelocity uL n vf).sub vf).dot n = -((uL.sub vf).dot n) := by
+    unfold mirrorVelocity
+    simp only [V3.sub, V3.smul, V3.dot, V3.norm2] at hn ⊢
+    linear_combination (-2 * ((uL.x - vf.x) * n.x + (uL.y - vf.y) * n.y + (uL.z - vf.z) * n.z)) * hn
+  have hf : faceFrame uL (mirrorVelocity uL n vf) n vf
+      = ⟨uL.sub vf, (mirrorVelocity uL n vf).sub vf, (uL.sub vf).dot n, -((uL.sub vf).dot n)⟩ := by
+    unfold faceFrame; simp only [hvR]
+  obtain ⟨h1, h2⟩ := hstar
+  rw [ExactFlux.star_mirror_states] at h2
+  unfold ExactFlux.solveForFlux ExactFlux.fluxWith
+  simp only [hf, lit0]
+  exact ExactFlux.fluxFromSample_at_rest _ _ _ n vf hn h2 h1 rfl hvR.symm
+
 /-! ## Non-vacuity of the hypotheses -/
 
 theorem sound_2_2_1 : sound 2 2 1 = 1 := by
@@ -550,5 +674,41 @@ example : (solveIfVacuum (0:ℝ) 2 2 0 1 0 0 0 0).isSome = true ∧
   · unfold solveForFluxIfVacuum solveIfVacuum
     simp [hv]
 
+
+/-- the hypothesis of `exact_mirror` / `exact_flux_mirror_partial` is satisfiable: two equal gases
+(`γ = 2, ρ = 2, P = 1`, sound speed 1) moving with `u`: contact at `u`, fan tails at `u ± 1`;
+every other sampling speed is tie-free (e.g. `x/t = 0` for `u = 1/2`) -/
+example (nf bf : ℕ) (u d : ℝ) (h1 : d ≠ u) (h2 : d ≠ u + 1) (h3 : d ≠ u - 1) :
+    ExactFlux.MirrorTieFree 2 nf bf 2 u 1 2 u 1 d := by
+  have hG : effGamma (2:ℝ) = 2 := effGamma_eq 2 (by norm_num)
+  have hcg : (CMacVerif.ExactRiemann.mkConsts (2:ℝ)).gamma = 2 := hG
+  have ha : soundSpeed (effGamma (2:ℝ)) (1.0 / 2) 1 = 1 := by
+    unfold soundSpeed; rw [hG, lit1]; norm_num
+  have ha' : CMacVerif.ExactRiemann.soundspeed (CMacVerif.ExactRiemann.mkConsts (2:ℝ)) (1.0 / 2) 1 = 1 := by
+    unfold CMacVerif.ExactRiemann.soundspeed; rw [hcg, lit1]; norm_num
+  have ht : tdgm1 (effGamma (2:ℝ)) = 2 := by rw [hG]; unfold tdgm1; rw [lit2, lit1]; norm_num
+  obtain ⟨hp, hu⟩ := ExactFlux.star_identical (CMacVerif.ExactRiemann.mkConsts 2) nf bf (rho := 2) (P := 1) u (by norm_num)
+  have haR : (CMacVerif.ExactRiemann.star (CMacVerif.ExactRiemann.mkConsts 2) nf bf 2 u 1 2 u 1).aR = 1 := ha'
+  have haL : (CMacVerif.ExactRiemann.star (CMacVerif.ExactRiemann.mkConsts 2) nf bf 2 u 1 2 u 1).aL = 1 := ha'
+  unfold ExactFlux.MirrorTieFree
+  rw [hp, hu, haR, haL, ha, ht]
+  have h11 : (1:ℝ) * (1.0 / 1) = 1 := by rw [lit1]; norm_num
+  refine ⟨fun h => absurd h (by norm_num), h1, ?_, ?_⟩
+  · unfold CMacVerif.ExactRiemann.tailR; simp only [h11, CMacVerif.ExactRiemann.pow_real_eq, Real.one_rpow, mul_one]; exact h2
+  · unfold CMacVerif.ExactRiemann.tailL; simp only [h11, CMacVerif.ExactRiemann.pow_real_eq, Real.one_rpow, mul_one]; exact h3
+
+/-- the hypothesis `hstar` of `exact_mirror_no_exchange_partial` is satisfiable (two equal gases at
+rest against the face: the sampled state is the star state, velocity 0) -/
+example (nf bf : ℕ) :
+    (ExactFlux.solve1D (0:ℝ) 2 nf bf 2 0 1 2 (-0) 1 0).flag ≠ 0 ∧
+    (ExactFlux.solve1D (0:ℝ) 2 nf bf 2 0 1 2 (-0) 1 0).u
+      = (CMacVerif.ExactRiemann.star (CMacVerif.ExactRiemann.mkConsts (2:ℝ)) nf bf 2 0 1 2 (-0) 1).ustar := by
+  rw [neg_zero]
+  obtain ⟨_, hu, _, hf⟩ := ExactFlux.solve1D_identical (2:ℝ) nf bf (rho := 2) (P := 1) 0 0
+    (by norm_num) (by norm_num)
+  obtain ⟨_, hs⟩ := ExactFlux.star_identical (CMacVerif.ExactRiemann.mkConsts (2:ℝ)) nf bf
+    (rho := 2) (P := 1) 0 (by norm_num)
+  refine ⟨?_, by rw [hu, hs]⟩
+  rcases hf with h | h <;> rw [h] <;> decide
 
 end CMacVerif.C05
